@@ -2,14 +2,15 @@
 
 A8: no construct of the package turns a set whose iteration order can depend on PYTHONHASHSEED (elements that
 are str, Enum members, objects hashed through a str or by identity, or of unknown type) into a sequence;
-no id()/hash()/random/time value reaches an output.
+no id()/hash()/random/time value reaches an output; the random name of a temporary file is used only to address
+the file (sa/runvalue.py); no memoised function answers from state outside its arguments (sa/memoio.py).
 """
 from __future__ import annotations
 
 import ast
 import json
 import os
-from typing import List
+from typing import List, Tuple
 
 from sa import astq
 from sa.model import Repo, norm
@@ -108,57 +109,175 @@ def nested_functions(repo) -> List:
     return out
 
 
-def _result_unused(fi, node: ast.AST) -> bool:
-    """The value of `node` (a sorted(...) call) and everything edited with it stays inside the function: the names it is bound to, and the
-    receivers of method calls that take those names as arguments, occur in no return value, no attribute/subscript store on other objects,
-    no other call argument and no yield."""
+FRESH_CALLS = {"list", "set", "dict", "tuple", "frozenset", "sorted", "defaultdict", "OrderedDict", "deque", "Counter", "reversed", "enumerate", "zip", "range", "filter", "map"}
+READ_ONLY_CALLS = {"len", "sorted", "list", "set", "tuple", "frozenset", "defaultdict", "min", "max", "sum", "any", "all", "enumerate", "zip", "reversed", "range", "iter", "next", "isinstance", "bool", "dict"}
+CONTAINER_METHODS = {"append", "add", "remove", "discard", "pop", "extend", "insert", "sort", "reverse", "clear", "update", "setdefault", "popitem", "values", "items", "keys", "get", "index", "count", "copy"}
+
+
+def _result_unused(fi, node: ast.AST) -> Tuple[bool, str]:
+    """(True, '') when the value of `node` (a sorted(...) call) and everything computed from it or under its control stays inside
+    the function; otherwise (False, the first place where it leaves).
+
+    T = the names that can depend on the order: the targets the value is bound to; every name bound from an expression that mentions a
+    name of T (assignment of any form, tuple unpacking, augmented assignment, :=, loop and comprehension targets, with-targets); the
+    receiver (base name) of every method call that takes a name of T as an argument; every name bound, and every receiver edited,
+    inside a statement whose test / iterable mentions a name of T (implicit flow).
+    The computation is dead when
+      * every name of T is a local of this function that is only ever bound to fresh containers (literals, comprehensions, list/set/
+        sorted/defaultdict(...)) or to values taken out of names of T - never a parameter, `self`, a global or a closure variable;
+      * no name of T occurs in a return / yield / raise value, in a nested function or lambda, in the value or the target of an attribute
+        store, in a subscript store into something that is not itself in T, or as an argument of a call other than a read-only builtin
+        or a container method of a name of T;
+      * no method other than a container method is called on (an element of) a name of T, and no attribute of an element is written;
+      * no return / yield / raise stands under the control of a test or loop that mentions a name of T."""
     fn = fi.node
     par = {}
     for n in ast.walk(fn):
         for c in ast.iter_child_nodes(n):
             par[id(c)] = n
-    tainted = set()
     st = node
     while id(st) in par and not isinstance(st, ast.stmt):
         st = par[id(st)]
+    T: set = set()
+
+    def names(e) -> set:
+        return {x.id for x in ast.walk(e) if isinstance(x, ast.Name)} if e is not None else set()
+
+    def base_name(e):
+        while isinstance(e, (ast.Attribute, ast.Subscript, ast.Call)):
+            e = e.func if isinstance(e, ast.Call) else e.value
+        return e.id if isinstance(e, ast.Name) else None
+
     if isinstance(st, ast.Assign):
         for t in st.targets:
-            tainted |= {x.id for x in ast.walk(t) if isinstance(x, ast.Name)}
+            T |= names(t) if not isinstance(t, (ast.Attribute, ast.Subscript)) else set()
+            if isinstance(t, (ast.Attribute, ast.Subscript)):
+                return False, f"it is stored in `{norm(t)[:40]}`"
+    elif isinstance(st, ast.AnnAssign) and isinstance(st.target, ast.Name):
+        T.add(st.target.id)
     else:
+        return False, f"it is used directly in `{norm(st)[:60]}`"
+
+    def controlled(n) -> bool:
+        """n stands inside an if / while / for / comprehension whose test or iterable mentions a name of T"""
+        p = par.get(id(n))
+        while p is not None and p is not fn:
+            if isinstance(p, (ast.If, ast.While)) and names(p.test) & T:
+                return True
+            if isinstance(p, (ast.For, ast.AsyncFor)) and names(p.iter) & T:
+                return True
+            if isinstance(p, ast.IfExp) and names(p.test) & T:
+                return True
+            p = par.get(id(p))
         return False
+
     changed = True
-    edits = set()
     while changed:
         changed = False
         for n in ast.walk(fn):
-            if isinstance(n, ast.Call) and isinstance(n.func, ast.Attribute) and isinstance(n.func.value, ast.Name):
-                if any(isinstance(x, ast.Name) and x.id in tainted for a in n.args for x in ast.walk(a)) and n.func.value.id not in tainted:
-                    tainted.add(n.func.value.id)
-                    edits.add(id(n))
-                    changed = True
-                elif any(isinstance(x, ast.Name) and x.id in tainted for a in n.args for x in ast.walk(a)):
-                    edits.add(id(n))
-            elif isinstance(n, ast.Assign) and any(isinstance(x, ast.Name) and x.id in tainted for x in ast.walk(n.value)):
-                for t in n.targets:
-                    if isinstance(t, ast.Name) and t.id not in tainted:
-                        tainted.add(t.id)
+            bound, src = [], None
+            if isinstance(n, ast.Assign):
+                bound, src = n.targets, n.value
+            elif isinstance(n, (ast.AnnAssign, ast.AugAssign)):
+                bound, src = [n.target], n.value
+            elif isinstance(n, ast.NamedExpr):
+                bound, src = [n.target], n.value
+            elif isinstance(n, (ast.For, ast.AsyncFor)):
+                bound, src = [n.target], n.iter
+            elif isinstance(n, ast.withitem) and n.optional_vars is not None:
+                bound, src = [n.optional_vars], n.context_expr
+            if bound and src is not None and ((names(src) & T) or controlled(n)):
+                for t in bound:
+                    new = ({base_name(t)} if isinstance(t, (ast.Attribute, ast.Subscript)) else names(t)) - {None}
+                    if not new <= T:
+                        T |= new
                         changed = True
+            if isinstance(n, ast.Call) and isinstance(n.func, ast.Attribute):
+                argn = set()
+                for a in list(n.args) + [k.value for k in n.keywords]:
+                    argn |= names(a)
+                if (argn & T) or controlled(n):
+                    b = base_name(n.func.value)
+                    if b is not None and b not in T and (n.func.attr in CONTAINER_METHODS or argn & T):
+                        T.add(b)
+                        changed = True
+    # every name of T is a fresh local
+    params = {a.arg for a in fn.args.posonlyargs + fn.args.args + fn.args.kwonlyargs} | ({fn.args.vararg.arg} if fn.args.vararg else set()) | ({fn.args.kwarg.arg} if fn.args.kwarg else set())
+    declared = {g for x in ast.walk(fn) if isinstance(x, (ast.Global, ast.Nonlocal)) for g in x.names}
+    for nm in sorted(T):
+        if nm in params or nm in declared or nm in ("self", "cls"):
+            return False, f"`{nm}` - a parameter, `self` or a global - is edited with it"
+        binds = []
+        for n in ast.walk(fn):
+            if isinstance(n, ast.Assign):
+                binds += [(t, n.value) for t in n.targets if nm in names(t) and not isinstance(t, (ast.Attribute, ast.Subscript))]
+            elif isinstance(n, (ast.AnnAssign, ast.AugAssign, ast.NamedExpr)) and nm in names(n.target) and not isinstance(n.target, (ast.Attribute, ast.Subscript)) and n.value is not None:
+                binds.append((n.target, n.value))
+            elif isinstance(n, (ast.For, ast.AsyncFor)) and nm in names(n.target):
+                binds.append((n.target, n.iter))
+            elif isinstance(n, ast.withitem) and n.optional_vars is not None and nm in names(n.optional_vars):
+                return False, f"`{nm}` is bound by a with statement"
+        if not binds:
+            return False, f"`{nm}` is not a local of this function (closure or global)"
+        for t, v in binds:
+            fresh = isinstance(v, (ast.List, ast.Set, ast.Dict, ast.Tuple, ast.ListComp, ast.SetComp, ast.DictComp, ast.GeneratorExp, ast.Constant)) or (isinstance(v, ast.Call) and isinstance(v.func, ast.Name) and v.func.id in FRESH_CALLS)
+            from_t = bool(names(v) & T) and all(isinstance(x, (ast.Name, ast.Subscript, ast.Constant, ast.Slice, ast.UnaryOp, ast.USub, ast.Load, ast.Store, ast.Attribute, ast.Call, ast.Tuple, ast.Index if hasattr(ast, "Index") else ast.Load)) or isinstance(x, (ast.expr_context, ast.operator, ast.unaryop)) for x in ast.walk(v))
+            if not (fresh or from_t):
+                return False, f"`{nm}` is bound to `{norm(v)[:50]}`, which is not a fresh local container"
+    # where T must not occur
     for n in ast.walk(fn):
-        if isinstance(n, (ast.Return, ast.Yield, ast.YieldFrom)) and n.value is not None and any(isinstance(x, ast.Name) and x.id in tainted for x in ast.walk(n.value)):
-            return False
-        if isinstance(n, ast.Assign):
+        if isinstance(n, (ast.ListComp, ast.SetComp, ast.DictComp, ast.GeneratorExp)) and any(names(g.iter) & T for g in n.generators):
+            # the variables of a comprehension over a name of T are elements: nothing may be called on them or with them
+            for c in ast.walk(n):
+                if isinstance(c, ast.Call) and not (isinstance(c.func, ast.Name) and c.func.id in READ_ONLY_CALLS):
+                    return False, f"`{norm(c)[:50]}` is called on its elements in a comprehension"
+        if isinstance(n, (ast.Return, ast.Yield, ast.YieldFrom, ast.Raise)):
+            v = n.value if not isinstance(n, ast.Raise) else n.exc
+            if v is not None and names(v) & T:
+                return False, f"`{norm(n)[:60]}` hands it out"
+            if not isinstance(n, ast.Raise) and controlled(n) and v is not None:
+                return False, f"`{norm(n)[:60]}` stands under a test of it"
+        if isinstance(n, (ast.FunctionDef, ast.AsyncFunctionDef, ast.Lambda)) and n is not fn:
+            inner = set()
+            for b in (n.body if isinstance(n.body, list) else [n.body]):
+                inner |= names(b)
+            own = {a.arg for a in n.args.posonlyargs + n.args.args + n.args.kwonlyargs}
+            if (inner - own) & T:
+                return False, f"a nested function reads `{sorted((inner - own) & T)[0]}`"
+        if isinstance(n, (ast.Assign, ast.AugAssign, ast.AnnAssign)):
+            tgts = n.targets if isinstance(n, ast.Assign) else [n.target]
+            for t in tgts:
+                if isinstance(t, ast.Attribute) and ((names(n.value) & T) or base_name(t) in T or controlled(n)):
+                    return False, f"`{norm(n)[:60]}` writes an attribute of an object that exists outside this function"
+                if isinstance(t, ast.Subscript) and not isinstance(t.value, ast.Name) and (base_name(t) in T):
+                    return False, f"`{norm(n)[:60]}` writes into an element"
+        if isinstance(n, ast.Delete) and controlled(n):
             for t in n.targets:
-                if isinstance(t, (ast.Attribute, ast.Subscript)) and any(isinstance(x, ast.Name) and x.id in tainted for x in ast.walk(n.value)):
-                    base = t
-                    while isinstance(base, (ast.Attribute, ast.Subscript)):
-                        base = base.value
-                    if not (isinstance(base, ast.Name) and base.id in tainted):
-                        return False
-        if isinstance(n, ast.Call) and id(n) not in edits and not (isinstance(n.func, ast.Name) and n.func.id in ("len", "sorted", "list", "set", "defaultdict")):
-            if any(isinstance(x, ast.Name) and x.id in tainted for a in list(n.args) + [k.value for k in n.keywords] for x in ast.walk(a)):
-                if not (isinstance(n.func, ast.Attribute) and isinstance(n.func.value, ast.Name) and n.func.value.id in tainted):
-                    return False
-    return True
+                if base_name(t) not in T:
+                    return False, f"`{norm(n)[:60]}` stands under a test of it"
+        if isinstance(n, ast.Call):
+            argn = set()
+            for a in list(n.args) + [k.value for k in n.keywords if k.arg != "key"]:
+                argn |= names(a)
+            if isinstance(n.func, ast.Name):
+                if (argn & T) and n.func.id not in READ_ONLY_CALLS:
+                    return False, f"it is passed to `{n.func.id}(...)`"
+                if controlled(n) and n.func.id not in READ_ONLY_CALLS and n.func.id not in FRESH_CALLS:
+                    return False, f"`{norm(n)[:50]}` is called under a test of it"
+            elif isinstance(n.func, ast.Attribute):
+                b = base_name(n.func.value)
+                recv = n.func.value
+                # the receiver must be a container named in T: NAME, NAME[...], NAME.values()/items()/keys()
+                plain = isinstance(recv, ast.Name) or (isinstance(recv, ast.Subscript) and isinstance(recv.value, ast.Name))
+                if b in T:
+                    if not (plain and n.func.attr in CONTAINER_METHODS):
+                        return False, f"`{norm(n)[:60]}` calls a method of an element"
+                elif (argn & T) or controlled(n):
+                    return False, f"it is passed to `{norm(n.func)[:40]}(...)`"
+            else:
+                if argn & T:
+                    return False, f"it is passed to `{norm(n.func)[:40]}(...)`"
+    return True, ""
 
 
 def analyse(chk, repo, modules, label: str) -> int:
@@ -183,10 +302,11 @@ def analyse(chk, repo, modules, label: str) -> int:
             fq_outer = f"{fi.module.name}:{fi.qualname.split('.<locals>.')[0]}"  # a helper nested in a named function is part of that function
             ex = [e for e in exc if fq in e["functions"] or fq_outer in e["functions"]]
             if ex and ex[0].get("requires_result_unused"):
-                if _result_unused(fi, s.node):
-                    chk.ok("order-taint-exception", site, f"{desc}: named exception - the sorted order reaches no output of this function (dead computation: only a local list is edited and never returned, stored or passed on)")
+                dead, leak = _result_unused(fi, s.node)
+                if dead:
+                    chk.ok("order-taint-exception", site, f"{desc}: named exception - the sorted order reaches no output of this function (dead computation: only fresh local containers are edited with it; nothing computed from it or under its control is returned, stored, passed on or used to edit a shared object)")
                     continue
-                chk.violation("order-taint", site, f"{desc}: sorted(set, key=...) keeps set order among ties and its result now reaches an output of this function: the order differs between interpreters (PYTHONHASHSEED)", key=f"{fq_outer}:sorted-key-live")
+                chk.violation("order-taint", site, f"{desc}: sorted(set, key=...) keeps set order among ties and its result is no longer confined to this function - {leak}: the order differs between interpreters (PYTHONHASHSEED)", key=f"{fq_outer}:sorted-key-live")
                 continue
             if ex and s.key is not None:
                 comps = key_components(fi, s.key)
@@ -302,6 +422,35 @@ def query_effects(chk) -> None:
     chk.ok("query-write", "package", f"{n} properties outside common.py's structure classes: none writes to state reachable from its receiver")
 
 
+def run_values(chk) -> None:
+    """The name of a temporary file is random on every run: it may address the file, it must not become data (sa/runvalue.py)."""
+    from sa.runvalue import RunValues
+
+    try:
+        rv = RunValues(chk.repo)
+        found = rv.analyse()
+    except Exception as ex:
+        chk.error("run-dependent-name", "package", f"taint analysis of temporary names failed: {type(ex).__name__}: {ex}")
+        return
+    for f in found:
+        chk.violation("run-dependent-name", f.fi.site(f.node), f.text, key=f.key)
+    chk.ok("run-dependent-name", "package", f"{rv.n_sources} temporary files / names are created in the package; every value derived from such a name (through assignments, string and path operations, returns and arguments of package functions) is used only to address the file, in tests, or in log messages")
+
+
+def memo_external(chk) -> None:
+    """A memoised function answers from its arguments only (sa/memoio.py)."""
+    from sa import memoio
+
+    try:
+        found, n = memoio.findings(chk.repo)
+    except Exception as ex:
+        chk.error("memo-external-state", "package", f"analysis of memoised functions failed: {type(ex).__name__}: {ex}")
+        return
+    for fi, node, text, key in found:
+        chk.violation("memo-external-state", fi.site(node), text, key=key)
+    chk.ok("memo-external-state", "package", f"{n} memoised functions (lru_cache / cache, as decorator or wrapped at module level): none reads the file system, the environment, the clock or standard input, directly or through package functions it calls")
+
+
 def run(chk) -> None:
     chk.explanation = (
         "Iteration-order taint analysis over every function of the package: light type inference (annotations, constructors, adds, "
@@ -312,11 +461,13 @@ def run(chk) -> None:
         "different types are read through their reaching definitions, helpers nested in a function belong to it. One named exception with checked side conditions (spec/exceptions.json): the sort key "
         "must contain both residues, and the order of the key components must be consistent with their equality - where it is not (Residue.__lt__ vs __eq__) the exception holds only under the input "
         "assumption recorded there. Repeated calls: no method of the structure classes and no property anywhere in the package writes to state reachable from its receiver (effects engine), no "
-        "function mutates a module-level container."
+        "function mutates a module-level container; no memoised function (lru_cache / cache) reads the file system, the environment or the clock - its key would name the source, not the content. "
+        "Run-dependent names: the name of a temporary file (tempfile.*) is followed through assignments, string operations, returns and arguments across the package; it may address the file, "
+        "it must not be stored, formatted into a result or written."
     )
     chk.trusted = ["CPython: set iteration order is a function of the hashes and the insertion history", "scipy/pulp/pandas/mmcif internals are deterministic", "dict and OrderedSet preserve insertion order"]
     chk.assumptions = ["int/float/tuple-of-int hashes do not depend on PYTHONHASHSEED"]
-    chk.robust |= {"order-taint", "nondeterministic-value", "receiver-write", "cache-introspection", "shared-state", "query-write"}
+    chk.robust |= {"order-taint", "nondeterministic-value", "receiver-write", "cache-introspection", "shared-state", "query-write", "run-dependent-name", "memo-external-state"}
     n = analyse(chk, chk.repo, None, "package")
     # repeated calls: no query changes the object it is asked on, none looks at the cache, no module-level container is consumed
     from checks import c12
@@ -324,6 +475,8 @@ def run(chk) -> None:
     c12.check_effects(chk)
     query_effects(chk)
     shared_state(chk)
+    run_values(chk)
+    memo_external(chk)
     if n < 8:
         chk.error("order-taint", "-", f"only {n} set-typed iteration sites recognised (9 confirmed on the pinned tree): the type inference lost track of the sets")
 
